@@ -268,6 +268,17 @@ theorem step_ok {w : World} (hinv : Inv w) (op : Op) (hin : inContract w op = tr
       · intro mk kvs he; simp at he
     · exact stepOK_bad hinv
   | bassign c d => simp [inContract] at hin
+  | read c =>
+    simp only [step]
+    split
+    · rename_i x hl
+      apply stepOK_commit hinv
+      · rfl
+      · rw [oldToks_of_lookup hl]; simp [Conserves, newToks]
+      · intro mk kvs he
+        simp only [Option.some.injEq] at he
+        exact inv_keys hinv (by rw [hl, he])
+    · exact stepOK_bad hinv
 
 /-! ### frame: an operation changes only the container it is applied to -/
 
@@ -276,7 +287,7 @@ def Op.target : Op → Nat
   | .new c _ => c | .newSeq c _ _ => c | .newMap c _ _ => c | .box c _ => c | .push c _ => c | .pushAt c _ _ => c
   | .pop c => c | .popAt c _ => c | .set c _ _ => c | .rem c _ => c | .resize c _ => c | .sort c => c
   | .concat c _ => c | .assign c _ => c | .copy c _ => c | .mset c _ _ => c | .mrem c _ => c | .del c => c
-  | .bassign c _ => c
+  | .bassign c _ => c | .read c => c
 
 theorem commit_objs (w : World) (c : Nat) (isBox : Bool) (cont : Option Cont) (r : Res Unit) (touched : List Nat) :
     (commit w c isBox cont r touched).1.objs = objsAfter w.objs c cont := by
